@@ -48,6 +48,10 @@ GUARDS = [
     ("rfft(explicit odd n)", "lambda anp, x: anp.real(anp.fft.rfft(x, 5))", (6,), "rev"),
     ("rfft(explicit odd n=3)", "lambda anp, x: anp.real(anp.fft.rfft(x, 3))", (4,), "rev"),
     ("irfft(explicit odd n)", "lambda anp, x: anp.fft.irfft(x, 5)", (4,), "rev"),
+    ("rfft(axis=0, odd length, even last dim)", "lambda anp, x: anp.real(anp.fft.rfft(x, axis=0))", (5, 4), "rev"),
+    ("rfft(n=5 on even axis)", "lambda anp, x: anp.real(anp.fft.rfft(x, 5, axis=-1))", (3, 4), "rev"),
+    ("rfftn(axes=(1,0), odd first dim)", "lambda anp, x: anp.real(anp.fft.rfftn(x, axes=(1, 0)))", (5, 4), "rev"),
+    ("irfft2(s odd last)", "lambda anp, x: anp.fft.irfft2(x, s=(4, 3))", (4, 3), "rev"),
     ("rfft2(odd last axis)", "lambda anp, x: anp.real(anp.fft.rfft2(x))", (4, 3), "rev"),
     ("rfftn(s odd)", "lambda anp, x: anp.real(anp.fft.rfftn(x, s=(4, 3)))", (4, 4), "rev"),
     ("setitem", "lambda anp, x: _setitem(x)", (3,), "rev"),
